@@ -60,6 +60,13 @@ def run_cases(chk, rng, count, admm, add_case, gen_problem, dyadic_start, impl_c
         iters = rng.choice([0, 1, 2, 2, 3, 3, 4, 4])
         tol_kind = rng.choice(["default", "zero", "negative", "half", "placed", "placed"])
         tol = {"default": 1e-4, "zero": 0.0, "negative": -1.0, "half": 0.5}.get(tol_kind)
+        if tol_kind == "placed" and not (t % 9 == 0):
+            # a constrained run whose rule can fire: accepted (n_const, order), a constraint that keeps the dual variable alive, >= 2 iterations
+            n_const = rng.choice([1, 1, 2]); order = rng.randint(0, n_const - 1)
+            kind = rng.choice([1, 1, 2, 3]); par = rng.choice([0.25, 0.5]) if kind >= 2 else 0.0
+            iters = max(iters, 2)
+            if not np.any(dual != 0):
+                dual = dyadic_start(rng, m, r, "infeasible") / 4
         try:
             if tol_kind == "placed":
                 tol = 1e-4
@@ -72,7 +79,7 @@ def run_cases(chk, rng, count, admm, add_case, gen_problem, dyadic_start, impl_c
                         xp = o0[0] if st0 == "ok" else x
                     if st1 == "ok":
                         r1, r2 = ratios(o1, xp)
-                        if r1 is not None and r2 is not None and max(r1, r2) > 0:
+                        if r1 is not None and r2 is not None and 0 < max(r1, r2) < 50:      # (a dual variable that is rounding noise gives an astronomic ratio)
                             tol = max(r1, r2) * (1.25 if rng.random() < 0.6 else 0.8)
                             chk.hist("admm_tol", "placed at iteration %d of %d" % (k, iters))
             st, out = impl_call(chk, lambda: call_admm(admm, UtM, G, x, dual, n_const, order, kind, par, iters, tol))
